@@ -18,7 +18,7 @@ import tempfile
 
 from ..leanclient import hx
 
-TRANSLATORS = ["pkcs1"]
+TRANSLATORS = ["pkcs1", "signsites"]
 
 MANIFEST = {
     "text": "Proof (Lean 4, Mathlib ZMod/Fermat): the blinded CRT private operation of Python_RSAKey returns m^d mod n for "
@@ -2432,6 +2432,23 @@ def run_dsa_model(ctx):
                                   {"stage": "dsa-model", "key": kl, "data": data.hex(), "k": nh(nonce), "got": bytes(r[1]).hex()})
                     continue
                 lines.append("dsasign %s %s %s" % (kl, nh(nonce), hx(data))); exp.append("%s %s" % (nh(rs[0]), nh(rs[1])))
+                lines.append("dsasignbytes %s %s %s" % (kl, nh(nonce), hx(data))); exp.append(hx(r[1]))
+                good = bytes(r[1])
+                dervars = [good, good + b"\x00", good[:-1], b"", b"\x30", b"\x30\x00", b"\x31" + good[1:], b"\x30\x81" + good[1:],
+                           asn1_seq(asn1_int(rs[0]) + asn1_int(rs[1]), True), asn1_seq(asn1_int(rs[0], 1) + asn1_int(rs[1])),
+                           asn1_seq(asn1_int(rs[0]) + asn1_int(rs[1]) + b"\x05\x00"), asn1_seq(asn1_int(rs[0])),
+                           asn1_seq(b"\x02\x00" + asn1_int(rs[1])), asn1_seq(b"\x03" + asn1_int(rs[0])[1:] + asn1_int(rs[1])),
+                           asn1_seq(b"\x02\x01\x80" + asn1_int(rs[1])), b"\x30\x80" + good[2:], b"\x30\x82\x00" + good[1:],
+                           bytes([good[0], (good[1] + 1) & 0x7f]) + good[2:], bytes(rng.getrandbits(8) for _ in range(rng.randrange(1, 12)))]
+                for dv in dervars:
+                    v = call(k.verify, bytearray(dv), bytearray(data))
+                    io = str(v[1]).lower() if v[0] == "ok" else "err:" + v[1]
+                    ctx.case(key=("dsa-der", name, dv, data), sample=None)
+                    ctx.count("dsa-model:der-variant")
+                    if v == ("ok", True) and dv != good:
+                        ctx.violation("c10:dsa-accepts-noncanonical-der", "Python_DSAKey.verify accepted a re-encoded / padded DER signature (key %s)" % name,
+                                      {"stage": "dsa-model", "key": kl, "data": data.hex(), "sig": dv.hex()})
+                    lines.append("dsaverifybytes %s %s %s" % (kl, hx(dv), hx(data))); exp.append(io)
                 cands = [(rs[0], rs[1]), (rs[0], q_ - rs[1]), (rs[0] + q_, rs[1]), (rs[0], rs[1] + q_), (0, rs[1]), (rs[0], 0), (q_, rs[1]),
                          (rs[0], q_), (rs[1], rs[0]), (rs[0] ^ 1, rs[1]), (rs[0], rs[1] ^ 1), (rng.randrange(1, q_), rng.randrange(1, q_))]
                 if rep_i == 0 and dl in (20, 32):
@@ -2451,6 +2468,34 @@ def run_dsa_model(ctx):
                                       "Python_DSAKey.verify returned %s, FIPS 186-4 says %s (key %s)" % (impl, want, name),
                                       {"stage": "dsa-model", "key": kl, "data": data.hex(), "r": nh(r2), "s": nh(s2)})
                     lines.append("dsaverify %s %s %s %s" % (kl, nh(r2), nh(s2), hx(data))); exp.append(str(impl).lower())
+    from ecdsa import der as eder
+    for v in [0, 1, 127, 128, 255, 256, 2 ** 63, 2 ** 64 - 1, 2 ** 255, 2 ** 256 - 1, 2 ** 1023, 2 ** 1024 + 5] + \
+            [rng.getrandbits(rng.choice([7, 8, 9, 160, 255, 256, 257, 1024])) for _ in range(ctx.pick(30, 200))]:
+        lines.append("derint " + nh(v)); exp.append(hx(eder.encode_integer(v)))
+        enc = eder.encode_integer(v) + bytes(rng.getrandbits(8) for _ in range(rng.choice([0, 0, 3])))
+        rr = call(eder.remove_integer, enc)
+        lines.append("derremint " + hx(enc)); exp.append(("%s %s" % (nh(rr[1][0]), hx(rr[1][1]))) if rr[0] == "ok" else "err:" + rr[1])
+    for v in [0, 1, 127, 128, 129, 255, 256, 65535, 65536, 2 ** 24]:
+        lines.append("derlen " + nh(v)); exp.append(hx(eder.encode_length(v)))
+    for _ in range(ctx.pick(150, 1500)):
+        n = rng.choice([0, 1, 2, 3, 5, 8, 40, 130, 200])
+        blob = bytearray(rng.getrandbits(8) for _ in range(n))
+        if blob and rng.random() < 0.8:
+            blob[0] = rng.choice([0x30, 0x02])
+        if len(blob) > 1 and rng.random() < 0.7:
+            blob[1] = rng.choice([len(blob) - 2, len(blob) - 1, len(blob) - 3, 0x80, 0x81, 0x82, 0, 1, 0x7f]) & 0xff
+        if len(blob) > 2 and blob[1] in (0x81, 0x82) and rng.random() < 0.7:
+            blob[2] = rng.choice([0, 1, 0x7f, 0x80, max(0, len(blob) - 3), max(0, len(blob) - 4)]) & 0xff
+        blob = bytes(blob)
+        for op, f in (("derremint", eder.remove_integer), ("derremseq", eder.remove_sequence)):
+            rr = call(f, blob)
+            ctx.count("der:" + op)
+            if rr[0] == "ok":
+                a, b = rr[1]
+                io = "%s %s" % (nh(a) if op == "derremint" else hx(a), hx(b))
+            else:
+                io = "err:" + rr[1]
+            lines.append("%s %s" % (op, hx(blob))); exp.append(io)
     if lc is not None:
         out = lc.batch(lines)
         for l, o, e in zip(lines, out, exp):
